@@ -366,7 +366,8 @@ def _r036(ck, prog, cfg):
     for f in bodies:
         for b, t in f.calls():
             c = t.get("fn") or ""
-            m = re.search(r"sharded_actor::ShardHandle::(\w+)$", c)
+            m = re.search(r"sharded_actor::ShardHandle::(\w+)$", c) or \
+                re.search(r"ShardedActorState::<T>::(pooled_fast_\w+|fast_get|fast_set|fast_batch_\w+)$", c)
             if not m:
                 continue
             n += 1
